@@ -9,7 +9,8 @@ import savebuf
 import calfile_lib as L
 
 DEFAULTS = (6, 7)
-VFILES = ["CalFile/NumTextProofs.v", "CalFile/CalFileProofs.v", "CalFile/SaveBufFacts.v", "Properties_C07.v"]
+VFILES = ["CalFile/NumTextProofs.v", "CalFile/CalFileProofs.v", "CalFile/CalSaveProofs.v", "CalFile/CalSaveExamples.v",
+          "CalFile/SaveBufFacts.v", "Properties_C07.v"]
 
 
 def py_accepts(setter, p):
